@@ -1,6 +1,36 @@
-"""C04-C04 share one suite (see harness/schedlib.py and props/schedsuite.py)."""
+"""C01-C04 share one suite for the agent scheduler (see harness/schedlib.py and props/schedsuite.py).
+C04 also covers the tasks the scheduler holds back for a raptor master that has not registered yet (the raptor
+backlog of _schedule_incoming / control_cb, driven as in props/c20.py): none of them is lost."""
+import rpload
 from props import schedsuite
 PROP = 'C04'
-LEAN_TARGETS = ['RPVerif.Props.C04']
-def run(ctx): schedsuite.run(ctx, 'C04')
-def replay(ctx, data): return schedsuite.replay(ctx, data, 'C04')
+LEAN_TARGETS = ['RPVerif.Props.C04', 'RPVerif.Props.C20']
+
+
+def backlog_part(ctx):
+    from props import c20
+    rp, rng = rpload.load(), ctx.rng
+    n = 0
+    for ops_, n_ in [(list(o), k) for o, k in c20.FWD_CORPUS] + [c20.gen_fwd(rng) for _ in range(ctx.n(120, 3000))]:
+        r = c20.run_fwd(rp, ops_)
+        n += 1
+        ctx.case({'backlog': ops_}, nontrivial=bool(r['delivered']))
+        for sig, what in c20.fwd_monitor(ops_, r, n_):
+            ctx.fail('raptor-backlog:' + sig, what, {'script': None, 'backlog': {'ops': ops_, 'n': n_}})
+    ctx.obligation('tasks held back by the scheduler for raptor masters (incoming bulks before and after registration, unregistration, '
+                   'cancel): each is handed on, failed, canceled or still held - exactly one of them (%d histories)' % n, 'tie', True, '')
+
+
+def run(ctx):
+    schedsuite.run(ctx, 'C04')
+    backlog_part(ctx)
+
+
+def replay(ctx, data):
+    if data['input'].get('backlog'):
+        from props import c20
+        rp = rpload.load()
+        b = data['input']['backlog']
+        r = c20.run_fwd(rp, b['ops']); bad = c20.fwd_monitor(b['ops'], r, b['n']); print(r, bad)
+        return not bad
+    return schedsuite.replay(ctx, data, 'C04')
